@@ -6,7 +6,6 @@ use biodivine_lib_param_bn::symbolic_async_graph::{GraphColoredVertices, Symboli
 use std::fs::File;
 use std::fs::read_to_string;
 use std::io::Read;
-use std::path::Path;
 use zip::ZipArchive;
 
 /// Read the formulae from the specified file. Ignore lines starting with `#` (comments).
@@ -53,14 +52,11 @@ pub fn load_bdd_bundle(
 
     for filename in files {
         // ignore files with different extensions (might be some metadata)
-        let extension = Path::new(&filename).extension().and_then(|s| s.to_str());
-        if !matches!(extension, Some("bdd")) {
+        // (the suffix is tested on the whole entry name: `Path::extension` is `None` for an entry such as `.bdd` or
+        // `dir/.bdd`, so a set stored under an empty label or a label ending with `/` used to be skipped silently)
+        let Some(name) = filename.strip_suffix(".bdd") else {
             continue;
-        }
-
-        let name = filename.strip_suffix(".bdd").ok_or(format!(
-            "Error loading file `{filename}` from the archive {archive_path}."
-        ))?;
+        };
 
         let bdd_string = read_zipped_file(&mut archive, filename.as_str())?;
         let bdd = Bdd::read_as_string(&mut bdd_string.as_bytes()).map_err(|e| {
